@@ -80,8 +80,14 @@ func (p *Parser) Parse(source string) (Node, error) {
 		tokenizer.ApplyWhitespaceControl()
 	}
 
-	// Return the tokenizer to the pool
-	ReleaseTokenizer(tokenizer)
+	// The token slice lives in the tokenizer's buffer: the tokenizer goes back to
+	// the pool only when the parser has read the last token (another goroutine
+	// that gets it from the pool overwrites the buffer), and the buffer is not
+	// handed to a second pool
+	defer func() {
+		p.tokens = nil
+		ReleaseTokenizer(tokenizer)
+	}()
 
 	if err != nil {
 		return nil, fmt.Errorf("tokenization error: %w", err)
@@ -93,13 +99,8 @@ func (p *Parser) Parse(source string) (Node, error) {
 	// Parse tokens into nodes
 	nodes, err := p.parseOuterTemplate()
 	if err != nil {
-		// Clean up token slice on error
-		ReleaseTokenSlice(p.tokens)
 		return nil, fmt.Errorf("parsing error: %w", err)
 	}
-
-	// Clean up token slice after successful parsing
-	ReleaseTokenSlice(p.tokens)
 
 	return NewRootNode(nodes, 1), nil
 }
